@@ -18,15 +18,15 @@ Proof. reflexivity. Qed.
 (** Inside a callback: one step per snapshot entry, one to look at the context. *)
 Lemma box_run snap : forall y mb,
   s_phase y = PBox mb snap -> s_cancel y = false ->
-  let y' := run cfg cutoff y (repeat EStep (S (length snap))) in
+  let y' := run cfg cutoff y (repeat (EStep false) (S (length snap))) in
   s_st y' = scan_snapshot cfg cutoff mb snap (s_st y) /\ s_phase y' = PIdle /\ s_todo y' = s_todo y /\ s_cancel y' = false.
 Proof.
   induction snap as [|v r IH]; intros y mb P C.
   - cbn [length repeat]. rewrite run_cons. cbn [ev_step run fold_left]. unfold sc_step. rewrite P, C.
     unfold set_phase. cbn. auto.
-  - cbn [length]. change (repeat EStep (S (S (length r)))) with (EStep :: repeat EStep (S (length r))).
+  - cbn [length]. change (repeat (EStep false) (S (S (length r)))) with (EStep false :: repeat (EStep false) (S (length r))).
     rewrite run_cons. cbn [ev_step]. rewrite scan_snapshot_cons.
-    set (y1 := sc_step cfg cutoff y).
+    set (y1 := sc_step cfg cutoff false y).
     assert (P1 : s_phase y1 = PBox mb r) by (unfold y1, sc_step; rewrite P; destruct (expired cutoff (snd v)); reflexivity).
     assert (C1 : s_cancel y1 = false) by (unfold y1, sc_step; rewrite P; destruct (expired cutoff (snd v)); exact C).
     assert (T1 : s_todo y1 = s_todo y) by (unfold y1, sc_step; rewrite P; destruct (expired cutoff (snd v)); reflexivity).
@@ -41,27 +41,27 @@ Proof. induction a; cbn; [reflexivity|f_equal; assumption]. Qed.
 (** The whole walk. *)
 Lemma walk_run order : forall y,
   s_phase y = PIdle -> s_todo y = order -> s_cancel y = false ->
-  exists n, s_st (run cfg cutoff y (repeat EStep n)) = scan cfg cutoff order (s_st y) /\
-            s_phase (run cfg cutoff y (repeat EStep n)) = PDone false.
+  exists n, s_st (run cfg cutoff y (repeat (EStep false) n)) = scan cfg cutoff order (s_st y) /\
+            s_phase (run cfg cutoff y (repeat (EStep false) n)) = PDone false.
 Proof.
   induction order as [|m r IH]; intros y P T C.
   - exists 1. cbn [repeat]. rewrite run_cons. cbn [ev_step run fold_left]. unfold sc_step. rewrite P, T. cbn. auto.
-  - set (y1 := ev_step cfg cutoff y EStep).
+  - set (y1 := ev_step cfg cutoff y (EStep false)).
     assert (P1 : s_phase y1 = PBox m (snapshot (s_st y) m)) by (unfold y1; cbn [ev_step]; unfold sc_step; rewrite P, T; reflexivity).
     assert (C1 : s_cancel y1 = false) by (unfold y1; cbn [ev_step]; unfold sc_step; rewrite P, T; exact C).
     assert (S1 : s_st y1 = s_st y) by (unfold y1; cbn [ev_step]; unfold sc_step; rewrite P, T; reflexivity).
     assert (T1 : s_todo y1 = r) by (unfold y1; cbn [ev_step]; unfold sc_step; rewrite P, T; reflexivity).
     destruct (box_run (snapshot (s_st y) m) y1 m P1 C1) as [A [B [T2 D]]].
     set (k := S (length (snapshot (s_st y) m))) in *.
-    set (y2 := run cfg cutoff y1 (repeat EStep k)) in *.
+    set (y2 := run cfg cutoff y1 (repeat (EStep false) k)) in *.
     destruct (IH y2 B (eq_trans T2 T1) D) as [n [E F]].
     exists (1 + (k + n)). cbn [Nat.add repeat]. rewrite run_cons. fold y1. rewrite repeat_add, run_app. fold y2.
     split; [|exact F]. rewrite E, A, S1. symmetry. apply scan_cons.
 Qed.
 
 Lemma steps_compute_scan order st :
-  exists n, s_st (run cfg cutoff (sys_init order st) (repeat EStep n)) = scan cfg cutoff order st /\
-            s_phase (run cfg cutoff (sys_init order st) (repeat EStep n)) = PDone false.
+  exists n, s_st (run cfg cutoff (sys_init order st) (repeat (EStep false) n)) = scan cfg cutoff order st /\
+            s_phase (run cfg cutoff (sys_init order st) (repeat (EStep false) n)) = PDone false.
 Proof. apply (walk_run order (sys_init order st)); reflexivity. Qed.
 
 End Steps.
